@@ -66,12 +66,28 @@ func (u *Unit) setResult(s *State, instr *ssa.Call, sig *types.Signature, res []
 		return
 	}
 	// error propagation (C12): remember every error-typed result of a call made by the unit's own code
-	if u.fc != nil && u.fc.Opts["propagate-errors"] != "" && instr.Parent() == u.fn {
+	if u.fc != nil && u.fc.Opts["propagate-errors"] != "" && (instr.Parent() == u.fn || u.fc.Opts["propagate-errors"] == "deep") {
 		errT := types.Universe.Lookup("error").Type()
 		for i := 0; i < sig.Results().Len() && i < len(res); i++ {
 			if types.Identical(sig.Results().At(i).Type(), errT) {
 				nm := fmt.Sprintf("%s#%d", shortCallee(calleeName(instr.Common())), u.ordinal(instr))
-				s.errs = append(s.errs, errResult{nm, res[i], instr.Pos()})
+				if instr.Parent() != u.fn {
+					nm = shortCallee(u.fnShort(instr.Parent())) + "." + nm
+				}
+				tol := "false"
+				for _, c := range u.fc.Clauses {
+					if c.Kind == "tolerates" && (c.Callee == nm || c.Callee == strings.SplitN(nm, "#", 2)[0]) {
+						env := u.bodyEnv(s, u.fn)
+						env.paramsEntry = true
+						env.names["_err"] = res[i]
+						g, err := env.formula(c.Expr)
+						if err != nil {
+							panic(abortUnit{fmt.Sprintf("%s:%d: %v", c.File, c.Line, err)})
+						}
+						tol = tor(tol, g)
+					}
+				}
+				s.errs = append(s.errs, errResult{nm, res[i], instr.Pos(), tol})
 			}
 		}
 	}
@@ -98,6 +114,7 @@ func (u *Unit) freshResults(s *State, name string, sig *types.Signature) []Term 
 }
 
 func shortCallee(n string) string {
+	n = strings.NewReplacer("(*", "", "(", "", ")", "").Replace(n)
 	if i := strings.LastIndex(n, "/"); i >= 0 {
 		n = n[i+1:]
 	}
